@@ -45,7 +45,8 @@ FAMILIES_T = [("elec", (1, 2, 3, 4)), ("two", (1, 2, 3)), ("spin", (1, 2, 3)), (
 def BOUND(tier):
     if tier == "quick":
         return {"families": FAMILIES_Q, "prod": "all sectors", "depth": 2, "bfs": "single-operand gauge fixpoint (a with b fresh, b with a fresh)"}
-    return {"families": FAMILIES_T, "prod": "all sectors", "depth": "3 for n = 1, 2 for n >= 2", "bfs": "joint gauge fixpoint of (a,b)"}
+    return {"families": FAMILIES_T, "prod": "all sectors", "depth": "3 for n = 1, 2 for n >= 2", "bfs": "joint gauge fixpoint of (a,b) for n <= 2, single-operand fixpoints for n = 3, none for n = 4",
+            "variants": "real/real and real/complex operands for elec, spin (n <= 3) and every family at n <= 2; real/real otherwise"}
 
 
 def configs(tier):
@@ -61,7 +62,7 @@ def configs(tier):
                         continue
                     variants = ["rr", "rc"] if (fam == "spin" or (fam == "elec" and n <= 2)) else ["rr"]
                 else:
-                    variants = ["rr", "rc"]
+                    variants = ["rr", "rc"] if (fam in ("elec", "spin") and n <= 3) or n <= 2 else ["rr"]
                 for var in variants:
                     yield fam, n, sec, var
 
@@ -84,8 +85,10 @@ def cases(tier, seed):
         leaf = acts["arith"] + acts["scalar"]
         if quick and (fam == "eph" or (fam == "two" and n == 3)):
             continue   # quick tier: these configurations are explored by prod and depth only (bfs in thorough)
+        if not quick and n >= 4:
+            continue   # thorough: 4-site chains by prod and depth only
         for i in range(0, len(leaf), 6):
-            yield dict(base, mode="bfs", joint=not quick and n <= 3, shard=i)
+            yield dict(base, mode="bfs", joint=not quick and n <= 2, shard=i)
 
 
 @functools.lru_cache(maxsize=8)
